@@ -36,6 +36,9 @@ var regRenderers = []regRenderer{
 	// --group-food qualifies --single-element; on its own it selects nothing else than the register (should a tree
 	// reject the lone flag with an error, that is not C02's business: only a successful run is compared)
 	{"group-food-without-single-element", []string{"--no-color", "reg", "-g"}, "default"},
+	// --shorten may cut names to their columns (27 for foods, 20 for ingredients and totals) and nothing else: the same
+	// rows with the same numbers in the same order, every name the original or a prefix ... suffix of it
+	{"default --shorten", []string{"--no-color", "reg", "--shorten"}, "default"},
 }
 
 // parseSummary parses `summary` output into days whose Totals carry only Pos.
@@ -162,6 +165,13 @@ func checkC02(w *Worker) {
 		got, err := parseRegister(stripANSI(r.Stdout), rd.Layout)
 		if err != nil {
 			x.Violate("C02|"+rd.Name+"|unparseable", fmt.Sprintf("`%s`: %v\n%s", c.shell(), err, r.Stdout), rep)
+			return
+		}
+		if rd.Name == "default --shorten" {
+			if msg := sameUpToShortening(got, want); msg != "" {
+				rep["expected"] = daysString(want)
+				x.Violate("C02|"+rd.Name+"|wrong-register", fmt.Sprintf("`%s`\nprinted:\n%s\n%s\nexpected (names in full):\n%s", c.shell(), tailStr(r.Stdout, 2000), msg, tailStr(daysString(want), 2000)), rep)
+			}
 			return
 		}
 		if daysString(got) != daysString(want) {
@@ -321,4 +331,35 @@ func checkC02(w *Worker) {
 		}
 		verify(x, bi, ri, c02Books[bi], absLog{d})
 	})
+}
+
+// sameUpToShortening: got has the days, rows and numbers of want; names may be shortened to their column.
+func sameUpToShortening(got, want []rDay) string {
+	if len(got) != len(want) {
+		return fmt.Sprintf("%d days, expected %d", len(got), len(want))
+	}
+	for di := range want {
+		g, w := got[di], want[di]
+		if g.Date != w.Date || len(g.Foods) != len(w.Foods) || len(g.Totals) != len(w.Totals) {
+			return fmt.Sprintf("day %s: %d foods and %d total rows, expected day %s with %d and %d", g.Date, len(g.Foods), len(g.Totals), w.Date, len(w.Foods), len(w.Totals))
+		}
+		for fi := range w.Foods {
+			gf, wf := g.Foods[fi], w.Foods[fi]
+			if gf.Qty != wf.Qty || !shortenedOK(gf.Name, wf.Name, 27) || len(gf.Ings) != len(wf.Ings) {
+				return fmt.Sprintf("day %s: food row %v, expected %v", w.Date, gf, wf)
+			}
+			for ii := range wf.Ings {
+				if gf.Ings[ii].Val != wf.Ings[ii].Val || !shortenedOK(gf.Ings[ii].Name, wf.Ings[ii].Name, 20) {
+					return fmt.Sprintf("day %s, food %s: ingredient row %v, expected %v", w.Date, wf.Name, gf.Ings[ii], wf.Ings[ii])
+				}
+			}
+		}
+		for ti := range w.Totals {
+			gt, wt := g.Totals[ti], w.Totals[ti]
+			if gt.Pos != wt.Pos || gt.Neg != wt.Neg || gt.Sum != wt.Sum || !shortenedOK(gt.Name, wt.Name, 20) {
+				return fmt.Sprintf("day %s: total row %v, expected %v", w.Date, gt, wt)
+			}
+		}
+	}
+	return ""
 }
